@@ -422,11 +422,16 @@ theorem parse_fix_stripped (known : List Str) : ∀ (ls : List Str) (m m' : Bool
     subst hm'
     obtain ⟨fs1, h1a, rfl⟩ := parseGo_true_inv h1
     have hfix : fixGo (⟨.continuation, n, l⟩ :: fs1) fc n (l :: ls)
-        = fixTabs l (if fc then leadingTabs l else 0) :: fixGo fs1 false (n + 1) ls := by
+        = (if fc then fixTabs l (leadingTabs l) else l) :: fixGo fs1 false (n + 1) ls := by
       simp [fixGo]
     rw [hfix] at h2
     obtain ⟨fs1', h2a, rfl⟩ := parseGo_true_inv h2
-    have ih := parse_fix_stripped known ls _ _ (n + 1) fs1 false fs1' (endsBackslash_fixTabs _) h1a h2a
+    have hends : endsBackslash l = true → endsBackslash (if fc then fixTabs l (leadingTabs l) else l) = true := by
+      intro he
+      cases fc with
+      | true => exact endsBackslash_fixTabs _ he
+      | false => exact he
+    have ih := parse_fix_stripped known ls _ _ (n + 1) fs1 false fs1' hends h1a h2a
     exact stripped_of_tail (fun hk => by cases hk) ih
   | l :: ls, false, m', n, fs, fc, fs', _, h1, h2 => by
     simp only [parseGo] at h1
@@ -602,14 +607,14 @@ theorem parseGo_records {known : List Str} : ∀ {ls : List Str} {m : Bool} {n :
 
 /-! ### a settled file is a fixed point of the fixer -/
 
-/-- every recorded directive line is stripped, every continuation line directly follows its directive
-    line and carries exactly one tab -/
+/-- every recorded directive line is stripped, every first continuation line (the one directly after
+    its directive line) carries exactly one tab; later continuation lines are free -/
 def settledGo : Bool → List Fix → Prop
   | _, [] => True
   | fc, f :: fs =>
     match f.kind with
     | .ppline => strip f.line = f.line ∧ settledGo true fs
-    | .continuation => fc = true ∧ leadingTabs f.line = 1 ∧ settledGo false fs
+    | .continuation => (fc = true → leadingTabs f.line = 1) ∧ settledGo false fs
 
 /-- the continuation half of `settledGo` -/
 def contSettled : Bool → List Fix → Prop
@@ -617,7 +622,7 @@ def contSettled : Bool → List Fix → Prop
   | fc, f :: fs =>
     match f.kind with
     | .ppline => contSettled true fs
-    | .continuation => fc = true ∧ leadingTabs f.line = 1 ∧ contSettled false fs
+    | .continuation => (fc = true → leadingTabs f.line = 1) ∧ contSettled false fs
 
 theorem settled_of_stripped : ∀ (fs : List Fix) (fc : Bool), Stripped fs → contSettled fc fs → settledGo fc fs
   | [], _, _, _ => trivial
@@ -632,7 +637,7 @@ theorem settled_of_stripped : ∀ (fs : List Fix) (fc : Bool), Stripped fs → c
       exact ⟨by rw [hl]; exact strip_idem l0, settled_of_stripped fs true hs' hc⟩
     | continuation =>
       rw [hk] at hc
-      exact ⟨hc.1, hc.2.1, settled_of_stripped fs false hs' hc.2.2⟩
+      exact ⟨hc.1, settled_of_stripped fs false hs' hc.2⟩
 
 theorem fixGo_of_settled {known : List Str} : ∀ (ls : List Str) (m : Bool) (n : Nat) (fs : List Fix) (fc : Bool),
     parseGo known m n ls = some fs → settledGo fc fs → fixGo fs fc n ls = ls
@@ -650,12 +655,13 @@ theorem fixGo_of_settled {known : List Str} : ∀ (ls : List Str) (m : Bool) (n 
         rw [this, hs.1, fixGo_of_settled ls m' (n + 1) fs1 true h1 hs.2]
       | continuation =>
         simp only at hs
-        obtain ⟨hfc, htabs, hrest⟩ := hs
-        subst hfc
-        have : fixGo (⟨.continuation, n, l⟩ :: fs1) true n (l :: ls)
-            = fixTabs l (leadingTabs l) :: fixGo fs1 false (n + 1) ls := by
+        obtain ⟨htabs, hrest⟩ := hs
+        have : fixGo (⟨.continuation, n, l⟩ :: fs1) fc n (l :: ls)
+            = (if fc then fixTabs l (leadingTabs l) else l) :: fixGo fs1 false (n + 1) ls := by
           simp [fixGo]
-        rw [this, htabs, fixGo_of_settled ls m' (n + 1) fs1 false h1 hrest]
-        simp [fixTabs]
+        rw [this, fixGo_of_settled ls m' (n + 1) fs1 false h1 hrest]
+        cases fc with
+        | false => rfl
+        | true => simp [htabs rfl, fixTabs]
 
 end SymbolVerif.Lint.Indent
